@@ -1,8 +1,19 @@
 #!/bin/sh
 # tools/seed_run.sh <patch.diff> <prop> [tier] [extra check args]
-# Applies a seeded change to /repo, runs the check, and undoes the change straight afterwards.
+# Runs a check against a seeded change. By default the change is applied to /repo and undone straight
+# afterwards; with SEED_SCRATCH=1 it is applied to a scratch worktree under /tmp instead (VERIF_REPO),
+# which leaves /repo untouched while other runs use it.
 set -u
 P=$1; PROP=$2; TIER=${3:-quick}; shift; shift; shift 2>/dev/null
+if [ "${SEED_SCRATCH:-0}" = 1 ]; then
+  WT=/tmp/seedrun-$$
+  git -C /repo worktree add -q --detach $WT HEAD || exit 2
+  git -C $WT apply "$P" || { echo "patch does not apply"; git -C /repo worktree remove --force $WT; exit 2; }
+  cd /verif && VERIF_REPO=$WT timeout 3000 ./check $PROP $TIER "$@" > /tmp/seedrun-$$.out 2>&1; rc=$?
+  git -C /repo worktree remove --force $WT
+  grep "VIOLATION\|  label=\|INCONCLUSIVE\|^OK\|KNOWN" /tmp/seedrun-$$.out | cut -c1-220 | head -12; rm -f /tmp/seedrun-$$.out
+  echo "exit=$rc"; exit 0
+fi
 cd /repo && git apply "$P" || { echo "patch does not apply"; exit 2; }
 cd /verif && timeout 3000 ./check $PROP $TIER "$@" > /tmp/seedrun.out 2>&1; rc=$?
 git -C /repo checkout -- . ; git -C /repo status --short
